@@ -53,6 +53,7 @@ class FakeSocket:
         self.last_exc = None
         self.silence_forever = True
         self.deliveries = []      # (virtual time, bytes|'eof') scheduled by the peer
+        self.rpos = 0             # bytes handed to the client so far
         self.w.ev("tsocket", sock=self.id, family=int(family) if family is not None else -1)
 
     # -- helpers for peers
@@ -130,7 +131,8 @@ class FakeSocket:
             k = n if self.cuts is None else min(n, self.cuts)
             data = bytes(self.inbuf[:k])
             del self.inbuf[:k]
-            self.w.ev("trecv", sock=self.id, req=min(int(n), 2000000000), got=len(data))
+            self.w.ev("trecv", sock=self.id, req=min(int(n), 2000000000), got=len(data), pos=self.rpos)
+            self.rpos += len(data)
             return data
         if self.reset:
             self.w.ev("terr", sock=self.id, req=n)
